@@ -69,3 +69,8 @@ async def counter_ok(iterator, results):
         else:
             results.append((index, item))
         index += 1
+
+
+@lru_cache(maxsize=256)
+def cached_bad(location):
+    return str(location)
